@@ -14,6 +14,12 @@
   4. TLC validates the events against spec/transport/TlsPolicyTrace.tla (Abs = the property only).  A tuple consumed by a
      named deviation action is classified through its signature (KNOWN-FINDING only if listed as known); any other
      rejected tuple is a violation.  Both are re-run before they are reported.
+     URL rows: HttpClient with the scheme in every letter case, with and without a port (default ports 443 / 80 on a
+     private loopback address, both listened on), against a peer that answers TLS and clear text alike: an https URL in
+     any letter case must end in TLS or be refused before a byte is sent.  Time rows: the peer's leaf is issued at run time
+     around a validity boundary that is crossed on a virtual clock (the driver defines time(), which libcrypto's validity
+     check resolves to; a per-tuple canary asks libcrypto itself); a NEW connection after the boundary through an engine
+     object started before it is judged at its own time.
   5. Observed outcomes are compared with the Impl prediction (with the deviations observed in this run switched on):
      differences are model drift (noted, never an alarm); a decision branch predicted to admit that never admits on the
      code is an infrastructure error (the run would be vacuous).
@@ -28,12 +34,18 @@ TRACE_CFG = os.path.join(SPECDIR, "TlsPolicyTrace.cfg")
 TRACE_COLLECT_CFG = os.path.join(SPECDIR, "TlsPolicyTraceCollect.cfg")
 
 DEVS = ["Dev_NoHostnameCheck_Transport", "Dev_NoHostnameCheck_HttpClient", "Dev_PlaintextFallbackWhenTlsNotEnabled",
-        "Dev_ClientCertRequestedNotRequired", "Dev_NoVersionFloor"]
-STR_F = ["role", "via", "peerKind", "anchor", "serverCert", "clientCert"]
+        "Dev_ClientCertRequestedNotRequired", "Dev_NoVersionFloor", "Dev_HttpSchemeCaseDowngrade",
+        "Dev_VerifyClockFrozenAtStart"]
+STR_F = ["role", "via", "peerKind", "anchor", "serverCert", "clientCert", "scheme", "port", "certLife", "when", "transport"]
 BOOL_F = ["tlsRequested", "tlsEnabled", "verify", "requireClientCert", "byName", "lax"]
 INT_F = ["clientMax", "serverMax", "engineMin"]
 FIELDS = STR_F + BOOL_F + INT_F
 ADMIT_BRANCHES = ["ConnectPlainByRequest", "ConnectHandshakeOk", "ListenPlainByRequest", "AcceptHandshakeOk"]
+
+
+def special(g):
+    """the URL-scheme / default-port rows and the time rows: few, always run"""
+    return g["certLife"] != "Static" or g["port"] == "default" or g["scheme"] not in ("-", "https", "http")
 QUICK_TUPLES = 1500
 
 
@@ -90,7 +102,7 @@ def select_quick(ck, plan):
         g = c["cfg"]
         big = g["tlsRequested"] and g["tlsEnabled"] and g["peerKind"] == "TLS" and g["serverCert"] not in ("Expired", "KeyMismatch") \
             if g["role"] == "Server" else g["tlsRequested"] and g["tlsEnabled"] and g["peerKind"] == "TLS"
-        if not big or g["via"] == "HttpServer":
+        if not big or g["via"] == "HttpServer" or special(g):
             take(i)
     # the cells the clauses of the property single out, at the default version settings
     for i, c in enumerate(plan):
@@ -219,19 +231,20 @@ def signature(dev, e):
 
 
 def observed(e):
-    return dict(started=e["started"], admitted=bool(e["announced"] or e["appOut"] or e["appIn"]), clear=e["clearOut"],
-                ver=e["peerVer"])
+    return dict(started=e["started"], admitted=bool(e["announced"] or e["appOut"] or e["appIn"]),
+                clear=bool(e["clearOut"] or e["engineFirst"] == "clear"), ver=e["peerVer"])
 
 
 def brief(e):
-    return {k: e[k] for k in FIELDS + ["started", "announced", "appOut", "appIn", "clearOut", "peerHs", "peerVer",
-                                       "closeMsg", "peerErr", "startErr"] if k in e}
+    return {k: e[k] for k in FIELDS + ["started", "announced", "appOut", "appIn", "clearOut", "engineFirst", "peerHs",
+                                       "peerVer", "warm", "canary", "closeMsg", "peerErr", "startErr"] if k in e}
 
 
 def nontrivial(e):
     peer_max = e["serverMax"] if e["role"] == "Client" else e["clientMax"]
     return e["tlsRequested"] and (e["verify"] or e["requireClientCert"] or e["peerKind"] != "TLS" or not e["tlsEnabled"]
-                                  or peer_max < 12 or e["engineMin"] != 0 or e["lax"] or e["serverCert"] == "KeyMismatch")
+                                  or peer_max < 12 or e["engineMin"] != 0 or e["lax"] or e["serverCert"] == "KeyMismatch"
+                                  or special(e))
 
 
 # ------------------------------------------------------------------------------------------------ the check
@@ -240,14 +253,19 @@ def run(ck):
     ck.rule = ("cases = the reachable initial states of TlsPolicy.tla (the pruned configuration matrix: engine as client via "
                "Transport connect / connectSync / HttpClient and as server via a Transport listener / HttpServer x TLS requested / configured x peer kind x "
                "verifyPeer / requireClientCert x trust anchor x server certificate x client certificate x by-name x peer "
-               "protocol ceiling TLS 1.0-1.3 x configured minimum x security level), enumerated by TLC; thorough runs every "
+               "protocol ceiling TLS 1.0-1.3 x configured minimum x security level; HttpClient URL scheme in every letter case x "
+               "explicit / default port; peer certificate expiring / becoming valid at a boundary x connection before / after it x "
+               "fresh / long-lived engine object), enumerated by TLC; thorough runs every "
                "tuple on the real engine, quick runs the small families, the default-version cells, every decision branch, "
                "an all-pairs cover and a seeded sample; a tuple is non-trivial when TLS is requested and some clause of the "
                "property beyond that has a true antecedent (verification on, client certificates required, non-TLS peer, "
                "no TLS context, a version limit below the default, a peer without the private key)")
     ck.assumptions = ["OpenSSL's chain building, signature verification and version negotiation are trusted",
                       "this system's OpenSSL (3.0.x, default security level 2) negotiates TLS 1.0/1.1 only when the cipher "
-                      "string lowers the security level to 0; the tuples with lax = TRUE configure exactly that on the engine"]
+                      "string lowers the security level to 0; the tuples with lax = TRUE configure exactly that on the engine",
+                      "the validity boundary of the time rows is crossed on a virtual clock: time() is defined in the driver "
+                      "executable and libcrypto's X509 validity check resolves to it (verified per tuple by a canary that "
+                      "asks X509_verify_cert itself); real time plays no part in any verdict"]
     with cf.ThreadPoolExecutor(max_workers=8) as ex:
         build = ex.submit(ck.make, "drv_tls")
         # ---- 1. the matrix, all deviations off
@@ -308,6 +326,7 @@ def run(ck):
                 raise vf.Infra("too many tuples crash or hang the driver child: %d" % len(bad2))
     ck.note("tuples run on the code: %d (%d re-run after running into the driver's deadline or a child crash%s)" % (
         len(events), len(again), (", e.g. [%s]" % lines[again[0]]) if again else ""))
+    void_tuples(ck, plan, lines, events)
     # ---- 4. the oracle
     judge(ck, plan, lines, events, "main")
     # ---- 5. oracle self-test, drift and vacuity (a violation already found is never hidden behind an infrastructure error)
@@ -325,6 +344,40 @@ def run(ck):
         if b not in shown and len(shown) < 6 and b not in ("ConnectVersionRefused", "ListenStartFails"):
             shown.add(b)
             ck.sample({"case": lines[i], "predicted": plan[i]["pred"], "observed": observed(events[i])})
+
+
+def void_tuples(ck, plan, lines, events):
+    """tuples the driver could not set up as intended are not judged: the virtual clock did not steer libcrypto (canary), or a
+    listening socket could not be bound (default ports).  A void time row is an infrastructure error (the whole time
+    dimension would be vacuous); unbindable default ports are an environment limit, noted and counted."""
+    void = [i for i, e in events.items() if not e.get("canary", True) or not e.get("realised", True)]
+    if void:
+        ev2, _ = run_driver(ck, [lines[i] for i in void], "rerun_void")
+        events.update(ev2)
+    bad_canary = [i for i, e in events.items() if not e.get("canary", True)]
+    if bad_canary:
+        raise vf.Infra("the virtual clock (time() defined in the driver) does not steer libcrypto's certificate validity check "
+                       "on this system: %d time row(s) void, e.g. [%s]" % (len(bad_canary), lines[bad_canary[0]]))
+    unreal = [i for i, e in events.items() if not e.get("realised", True)]
+    for i in unreal:
+        del events[i]
+    if unreal:
+        ck.note("%d tuple(s) could not be set up in this environment and were not judged (default ports not bindable?), e.g. [%s]"
+                % (len(unreal), lines[unreal[0]]))
+        if len(unreal) > 40:
+            raise vf.Infra("too many tuples cannot be set up: %d" % len(unreal))
+    # the long-lived rows are only meaningful if the connection before the boundary really took place
+    reused = [i for i, e in events.items() if e["transport"] == "Reused" and e["certLife"] == "ExpiresLater"
+              and plan[i]["pred"]["started"]]
+    cold = [i for i in reused if not events[i]["warm"]]
+    if reused and len(cold) * 10 > len(reused):
+        raise vf.Infra("vacuity: %d of %d long-lived rows had no admitted connection before the boundary, e.g. [%s]" % (
+            len(cold), len(reused), lines[cold[0]]))
+    ck.time_rows = len([i for i, e in events.items() if e["certLife"] != "Static"])
+    ck.url_rows = len([i for i, e in events.items() if e["via"] == "HttpClient" and (e["port"] == "default" or e["scheme"] not in ("https", "http"))])
+    if ck.time_rows == 0 or ck.url_rows == 0:
+        raise vf.Infra("vacuity: no time row / URL row was run (%d / %d)" % (ck.time_rows, ck.url_rows))
+    ck.note("time rows run: %d, URL scheme / default-port rows run: %d" % (ck.time_rows, ck.url_rows))
 
 
 def judge(ck, plan, lines, events, tag):
@@ -405,7 +458,15 @@ def self_test_oracle(ck, plan, events):
     if e:
         e["announced"] = True
         muts.append(("announced with a non-TLS peer", e))
-    if len(muts) < 4:
+    e = pick(lambda e: e["certLife"] == "ExpiresLater" and e["when"] == "After" and e["verify"] and e["role"] == "Client")
+    if e:
+        e["announced"] = True
+        muts.append(("admitted after the certificate expired", e))
+    e = pick(lambda e: e["via"] == "HttpClient" and e["scheme"] in ("HTTPS", "Https", "hTTps"))
+    if e:
+        e["engineFirst"] = "clear"
+        muts.append(("an https URL in another letter case answered in clear text", e))
+    if len(muts) < 6:
         raise vf.Infra("self-test: not enough tuple classes in this run to corrupt (%d)" % len(muts))
     for what, e in muts:
         tp = os.path.join(ck.work, "selftest.ndjson")
